@@ -42,6 +42,12 @@ func runC06(c *core.Ctx) {
 		for _, v := range prefixTests(p, mp) {
 			c.Check(v.ok, "R06.1", "mount.mountPoint|"+v.key, v.pos, v.msg, v.msg)
 		}
+		// the Range callback may be a method of a small search struct instead of a closure
+		if cb := rangeCallbackOf(mp); cb != nil && cb.Parent() == nil {
+			for _, v := range prefixTests(p, cb) {
+				c.Check(v.ok, "R06.1", "mount.mountPoint|"+v.key, v.pos, v.msg, v.msg)
+			}
+		}
 		if fr := p.Method("mem", "fileRecord", "ReadDirNames"); fr != nil {
 			for _, v := range prefixTests(p, fr) {
 				c.Check(v.ok, "R06.1", "mem.fileRecord.ReadDirNames|"+v.key, v.pos, v.msg, v.msg)
@@ -73,26 +79,45 @@ func runC06(c *core.Ctx) {
 
 // r06Longest: stores into the captured result cells inside the Range callback.
 func r06Longest(c *core.Ctx, p *load.Program, mp *ssa.Function) {
-	if len(mp.AnonFuncs) == 0 {
+	cb := rangeCallbackOf(mp)
+	if cb == nil {
 		c.Hard("R06.2: mountPoint has no Range callback")
 		return
 	}
-	cb := mp.AnonFuncs[0]
-	// the captured string cell holding the best mount path so far
+	// the cell holding the best mount path so far: a captured string variable of the closure, or — where the callback is
+	// a method of a search struct — the string field of its receiver that it stores into
 	var pathCell *ssa.FreeVar
 	for _, fv := range cb.FreeVars {
 		if pt, ok := fv.Type().(*types.Pointer); ok && isStr(pt.Elem()) {
 			pathCell = fv
 		}
 	}
-	if pathCell == nil {
+	bestField := ""
+	if pathCell == nil && cb.Signature.Recv() != nil {
+		recv := recvParam(cb)
+		ssax.Instrs(cb, func(ins ssa.Instruction) {
+			if st, ok := ins.(*ssa.Store); ok {
+				if fa, ok := st.Addr.(*ssa.FieldAddr); ok && fa.X == ssa.Value(recv) && isStr(st.Val.Type()) {
+					bestField = ssax.FieldName(fa)
+				}
+			}
+		})
+	}
+	if pathCell == nil && bestField == "" {
 		c.Hard("R06.2: no captured string cell in the Range callback")
 		return
+	}
+	isCellAddr := func(a ssa.Value) bool {
+		if pathCell != nil {
+			return a == ssa.Value(pathCell)
+		}
+		fa, ok := a.(*ssa.FieldAddr)
+		return ok && fa.X == ssa.Value(recvParam(cb)) && ssax.FieldName(fa) == bestField
 	}
 	ord := ordinals{}
 	ssax.Instrs(cb, func(ins ssa.Instruction) {
 		st, ok := ins.(*ssa.Store)
-		if !ok || st.Addr != ssa.Value(pathCell) {
+		if !ok || !isCellAddr(st.Addr) {
 			return
 		}
 		key := "mount.mountPoint|" + ord.next("best-update")
@@ -110,7 +135,7 @@ func r06Longest(c *core.Ctx, p *load.Program, mp *ssa.Function) {
 					bl, ok1 := big.(*ssa.Call)
 					sl, ok2 := small.(*ssa.Call)
 					if ok1 && ok2 && isLenCall(bl) && isLenCall(sl) && bl.Call.Args[0] == cand {
-						if u, ok := sl.Call.Args[0].(*ssa.UnOp); ok && u.X == ssa.Value(pathCell) {
+						if u, ok := sl.Call.Args[0].(*ssa.UnOp); ok && isCellAddr(u.X) {
 							strict = true
 						}
 					}
@@ -946,4 +971,40 @@ func r06NoVariableCutset(c *core.Ctx, p *load.Program, rule string, pkgs ...stri
 	if n == 0 {
 		c.OK(rule, "no-trim-with-cutset", "", "no strings.Trim/TrimLeft/TrimRight call in the analysed packages")
 	}
+}
+
+// rangeCallbackOf: the function fn hands to (*sync.Map).Range — its closure, or the method behind a method value
+// (`search.visit`).
+func rangeCallbackOf(fn *ssa.Function) *ssa.Function {
+	var cb *ssa.Function
+	ssax.Instrs(fn, func(ins ssa.Instruction) {
+		cl, ok := ins.(*ssa.Call)
+		if !ok || !ssax.CalleeIs(cl, "sync", "(*Map).Range") || len(cl.Call.Args) < 2 || cb != nil {
+			return
+		}
+		originIs(cl.Call.Args[1], func(v ssa.Value) bool {
+			mc, ok := v.(*ssa.MakeClosure)
+			if !ok {
+				return false
+			}
+			f, _ := mc.Fn.(*ssa.Function)
+			if f == nil {
+				return false
+			}
+			if strings.HasSuffix(f.Name(), "$bound") {
+				// the wrapper of a method value: the method it calls
+				ssax.Instrs(f, func(wi ssa.Instruction) {
+					if wc, ok := wi.(*ssa.Call); ok {
+						if callee := ssax.StaticCallee(wc); callee != nil && callee.Blocks != nil {
+							cb = callee
+						}
+					}
+				})
+				return cb != nil
+			}
+			cb = f
+			return true
+		})
+	})
+	return cb
 }
